@@ -251,7 +251,7 @@ package ship
 //@ macro CLOSEPHASE() := cast($decoded, model.ConnectionClose).ConnectionClose.Phase
 //@ func (c *ShipConnection).handleShipMessage(timeout, message) [C04,C01]
 //@   requires roleOK(c.role, c.smeState)
-//@   requires @TINV(c) && @CLOSEOK(c) && @READER(c) && !c.shutdownOnce.$done
+//@   requires @TINV(c) && @CLOSEOK(c) && @READER(c) && (c.shutdownOnce.$done ==> c.smeState == model.SmeStateComplete)
 //@   ensures [C04] E3-step: stepOK(c.role, old(c.smeState), c.smeState)
 //@   ensures [C04] E7-close-final: called(handleState) || c.shutdownOnce.$done || (@CLOSEPHASE() != model.ConnectionClosePhaseTypeAnnounce && @CLOSEPHASE() != model.ConnectionClosePhaseTypeConfirm)
 //@   ensures [C04] E4-timer: @TINV(c)
@@ -583,8 +583,11 @@ package ship
 //@   ensures [C11] F1-step: @F1STEP(c)
 //@   ensures [C06] B8-keep: @BUFKEEP(c)
 //@   modifies @hs(c)
+// a message can still arrive after CloseConnection only while a graceful close of a completed connection waits out
+// its grace period (every other close closes the transport before it returns, and the websocket layer delivers
+// nothing from a closed transport: C13-T3)
 //@ func (c *ShipConnection).HandleIncomingWebsocketMessage(message) entry [C04,C01,C06]
-//@   requires !c.shutdownOnce.$done
+//@   requires c.shutdownOnce.$done ==> c.smeState == model.SmeStateComplete
 //@   ensures [C04] E3-step: stepOK(c.role, old(c.smeState), c.smeState)
 //@   atcall HandleShipPayloadMessage [C01] G4-deliver: c.smeState == model.SmeStateComplete || c.smeState == model.SmeStateError
 //@   atcall HandleShipPayloadMessage [C06] B6-direct: $0 == @PAYLOAD() && old(c.dataReader) != nil && len(c.spineBuffer) == 0
